@@ -544,7 +544,7 @@ class Builder:
         consts = []
         for ci in range(r.below(3)):
             nm = "C%d" % ci
-            if r.chance(1, 30) and vars_:
+            if r.chance(1, 10) and vars_:
                 nm = vars_[0][0]                     # a constant shadowing a variable
             if is_float:
                 consts.append((nm, self.some_float()))
@@ -556,6 +556,8 @@ class Builder:
         for ei in range(r.below(3)):
             t, ty = self.tree(2, leaves)
             nm = "X%d" % ei
+            if r.chance(1, 12) and consts:
+                nm = consts[0][0]                    # an expression shadowing a constant
             exprs.append((nm, t))
             leaves.append((nm, ty))
         if r.chance(1, 60):
@@ -1089,8 +1091,15 @@ def boundary_graphs():
                     fto=("bin", "*", ("id", "FROM"), ("id", "C0")), ffrom=("bin", "-", ("id", "TO"), ("id", "C0")), p=tg))
     sh = b.add(dict(kind="intconverter", knife=dict(vars=[("TO", en), ("FROM", tg)], consts=[("Va", 1)], exprs=[]),
                     fto=("bin", "+", ("id", "FROM"), ("int", 1, "dec")), ffrom=("bin", "+", ("id", "TO"), ("int", 0, "dec")), p=tg))
+    # name resolution: Expression over Constant over (later) pVariable
+    two = integer(b, ("value", b.slot(("i", 2))))
+    sk2 = b.add(dict(kind="intswissknife",
+                     knife=dict(vars=[("Va", tg), ("Vz", tg), ("Vz", two)], consts=[("Va", 77), ("C1", 5)],
+                                exprs=[("C1", ("bin", "+", ("id", "Va"), ("int", 1, "dec")))]),
+                     f=("bin", "+", ("bin", "*", ("id", "Va"), ("int", 1000, "dec")),
+                        ("bin", "+", ("id", "C1"), ("bin", "*", ("id", "Vz"), ("int", 100000, "dec"))))))
     fin(b, [("v", sk), ("v", cv), ("s", cv, 7), ("v", tg), ("v", cv), ("v", sh), ("s", sh, 50), ("v", tg), ("mn", sk), ("mx", cv),
-            ("inc", sk), ("s", sk, 1)])
+            ("inc", sk), ("s", sk, 1), ("v", sk2)])
     return gs
 
 
